@@ -558,6 +558,35 @@ func c11Exhaustive(tier string) []corr.Case {
 			}
 		}
 	}
+	// every pair (and triple) of handle methods on one union handle: whatever moved or did not move the two cursors
+	// first, a cursor-relative write afterwards must land at the same place in both layers
+	{
+		first := []string{"h.read 0 3", "h.readat 0 3 2", "h.write 0 4142", "h.writestring 0 4344", "h.writeat 0 4546 1", "h.writeat 0 4546 0", "h.readfrom 0 4748",
+			"h.seek 0 4 0", "h.seek 0 2 1", "h.seek 0 -3 2", "h.seek 0 0 2", "h.trunc 0 2", "h.trunc 0 12", "h.stat 0", "h.sync 0"}
+		second := []string{"h.write 0 5859", "h.writestring 0 5a5a", "h.readfrom 0 5757", "h.seek 0 1 1", "h.read 0 2", "h.trunc 0 5"}
+		for _, st := range []string{"create", "open-cached", "open-uncached"} {
+			for _, a := range first {
+				var l []string
+				for _, b := range second {
+					switch st {
+					case "create":
+						l = append(l, "case cache-mem 0", "create "+h("/f"), "h.write 0 30313233343536373839", "h.seek 0 3 0")
+					case "open-cached":
+						l = append(l, "case cache-mem 3600", "b.create "+h("/f"), "h.write 0 30313233343536373839", "h.close 0", "b.chtimes "+h("/f")+" -9000",
+							"open "+h("/f"), "h.read 1 16", "h.close 1", "openfile "+h("/f")+" 2 420")
+					case "open-uncached":
+						l = append(l, "case cache-mem 3600", "b.create "+h("/f"), "h.write 0 30313233343536373839", "h.close 0", "b.chtimes "+h("/f")+" -9000",
+							"openfile "+h("/f")+" 2 420")
+					}
+					// the union handle is the last one opened in the case
+					hi := map[string]string{"create": "0", "open-cached": "2", "open-uncached": "1"}[st]
+					fix := func(x string) string { t := strings.Fields(x); t[1] = hi; return strings.Join(t, " ") }
+					l = append(l, fix(a), fix(b), fix("h.write 0 2e"), "snapshot", "cohere")
+				}
+				cases = append(cases, corr.Case{Lines: l})
+			}
+		}
+	}
 	// every mutator (and a write-open) on a DIRECTORY the cache has not seen yet, and on one it holds an outdated entry of:
 	// whatever the call answers, no regular file may appear under the directory's name in the cache
 	for _, dur := range []int{0, 3600} {
